@@ -1,1 +1,167 @@
-/-! # C07 — property theorems (stub: not built yet) -/
+import PymocaVerif.Lemmas.FlattenEx
+/-!
+# C07 — hierarchical flattening instantiates every component once
+
+Theorems about the reference semantics `PymocaVerif.Flatten` (Model/Flatten.lean), for every
+resolved library, target class and fuel (no bound on depth, width or number of classes): whenever
+flattening succeeds,
+
+* the flat variables are exactly the elementary leaves of the instance tree, described by the
+  independent inductive relation `Leaf` (own and inherited components, through components of
+  class type, type definitions resolved to their builtin), named by their instance path
+  (`vars_are_leaves`), no path occurs twice (`vars_nodup`);
+* each keeps its builtin type, the array dimensions of the enclosing components followed by its
+  own, and its prefixes, except that `input`/`output` survive exactly on paths of length one
+  (`leaf_data_kept`, `io_only_top_level`, `other_prefixes_kept`);
+* the instance equations are exactly the equations (own and inherited, `MemberEq`) of every class
+  instantiated at some instance path (`InstAt`), each renamed at that path
+  (`eqs_are_instance_eqs`), where renaming replaces a reference `r` written in instance `P` by
+  the flat variable `P ++ r` iff that is a flat variable and leaves it alone otherwise
+  (`reference_renaming`).
+
+Paths are lists of identifiers; the driver prints them dotted (identifiers contain no dot).
+-/
+namespace PymocaVerif.Flatten
+
+/-! ## the flat variables -/
+
+/-- The flat variables are exactly the elementary leaves: a path `q` with builtin type `b`,
+    dimensions `ds` and prefixes `pre` is a flat variable iff `q` leads to a leaf of the instance
+    tree with that type and those accumulated dimensions whose declared prefixes, filtered for
+    the depth, are `pre`. -/
+theorem vars_are_leaves {fuel : Nat} {lib : Lib} {t : Path} {m : FlatModel} (h : flattenF fuel lib t = .ok m)
+    (q : Path) (b : String) (ds : List Nat) (pre : List String) :
+    (∃ k, Leaf lib t q k b ds ∧ pre = keepIO q.length k.prefixes) ↔
+      ∃ v ∈ m.vars, v.path = q ∧ v.ty = b ∧ v.dims = ds ∧ v.prefixes = pre := by
+  obtain ⟨r, hr, rfl, htop⟩ := flattenF_ok h
+  constructor
+  · rintro ⟨k, hl, rfl⟩
+    obtain ⟨v, hv, hp, ht, hd, hpre⟩ := inst_vars_complete hl hr
+    refine ⟨finVar (r.1.map (·.path)) v, List.mem_map.mpr ⟨v, hv, rfl⟩, ?_, ht, ?_, ?_⟩
+    · simpa [finVar] using hp
+    · simpa [finVar] using hd
+    · simpa [finVar] using hpre
+  · rintro ⟨fv, hfv, rfl, rfl, rfl, rfl⟩
+    obtain ⟨v, hv, rfl⟩ := List.mem_map.mp hfv
+    obtain ⟨q, k, b, ds, hp, hl, ht, hd, hpre⟩ := inst_vars_sound hr hv
+    refine ⟨k, ?_, ?_⟩
+    · simp only [finVar]
+      simp at hp hd
+      rw [hp, ht, hd]
+      exact hl
+    · simp only [finVar]
+      simp at hp hpre
+      rw [hpre, hp]
+
+example : flattenF 6 exLib ["M"] = .ok exFlat ∧
+    ∃ k, Leaf exLib ["M"] ["lb", "u"] k "Real" [] ∧ k.prefixes = ["input"] :=
+  ⟨exFlat_ok, _, .sub (k := Comp.mk "lb" (.cls ["Leaf"]) [] [] [Mod.mk ["k"] (.num 5)]) (c' := ["Leaf"])
+      (.inh (b := ["Base"]) (d := exM) (m := [Mod.mk ["b", "start"] (.num 3)]) rfl (by decide)
+        (.own (d := exBase) rfl (by decide))) rfl
+      (fun b hb => by
+        cases hb with
+        | short hf hs _ _ =>
+          have : Lib.find exLib ["Leaf"] = some exLeaf := rfl
+          rw [this] at hf; cases hf; simp [exLeaf] at hs)
+      (.leaf (k := Comp.mk "u" (.builtin "Real") ["input"] [] []) (.own (d := exLeaf) rfl (by decide))
+        (.builtin _)), rfl⟩
+
+/-- No instance path is the name of two flat variables. -/
+theorem vars_nodup {fuel : Nat} {lib : Lib} {t : Path} {m : FlatModel} (h : flattenF fuel lib t = .ok m) :
+    (m.vars.map (·.path)).Nodup := by
+  obtain ⟨r, hr, rfl, htop⟩ := flattenF_ok h
+  have := inst_nodup hr
+  simpa [assemble, finVar, List.map_map, Function.comp_def] using this
+
+example : flattenF 6 exLib ["M"] = .ok exFlat ∧ exFlat.vars.length = 8 := ⟨exFlat_ok, by decide +kernel⟩
+
+/-- Every flat variable is a leaf and carries the leaf's builtin type, the dimensions of the
+    enclosing array components followed by its own, and its declared prefixes filtered for depth. -/
+theorem leaf_data_kept {fuel : Nat} {lib : Lib} {t : Path} {m : FlatModel} (h : flattenF fuel lib t = .ok m)
+    {v : FVar} (hv : v ∈ m.vars) :
+    ∃ k b ds, Leaf lib t v.path k b ds ∧ v.ty = b ∧ v.dims = ds ∧ v.prefixes = keepIO v.path.length k.prefixes := by
+  obtain ⟨k, hl, hp⟩ := (vars_are_leaves h v.path v.ty v.dims v.prefixes).mpr ⟨v, hv, rfl, rfl, rfl, rfl⟩
+  exact ⟨k, _, _, hl, rfl, rfl, hp⟩
+
+example : flattenF 6 exLib ["M"] = .ok exFlat ∧
+    (exFlat.vars.map fun v => (v.path, v.ty, v.dims, v.prefixes))[6]? = some (["l2", "w"], "Real", [3, 2], []) :=
+  ⟨exFlat_ok, by decide +kernel⟩
+
+/-- `input` / `output` never survive below the top level … -/
+theorem io_only_top_level {fuel : Nat} {lib : Lib} {t : Path} {m : FlatModel} (h : flattenF fuel lib t = .ok m)
+    {v : FVar} (hv : v ∈ m.vars) (hdeep : v.path.length ≠ 1) : "input" ∉ v.prefixes ∧ "output" ∉ v.prefixes := by
+  obtain ⟨k, b, ds, _, _, _, hp⟩ := leaf_data_kept h hv
+  rw [hp]
+  simp [keepIO, hdeep]
+
+example : flattenF 6 exLib ["M"] = .ok exFlat ∧
+    (exFlat.vars.map fun v => (v.path, v.prefixes))[1]? = some (["lb", "u"], []) ∧
+    (exFlat.vars.map fun v => (v.path, v.prefixes))[7]? = some (["y"], ["output"]) :=
+  ⟨exFlat_ok, by decide +kernel, by decide +kernel⟩
+
+/-- … and every other prefix (parameter, constant, discrete, flow), at every depth, and
+    input/output at the top level, are exactly the declared ones. -/
+theorem other_prefixes_kept {fuel : Nat} {lib : Lib} {t : Path} {m : FlatModel} (h : flattenF fuel lib t = .ok m)
+    {v : FVar} (hv : v ∈ m.vars) :
+    ∃ k b ds, Leaf lib t v.path k b ds ∧
+      (∀ x, (x ≠ "input" ∧ x ≠ "output") ∨ v.path.length = 1 → (x ∈ v.prefixes ↔ x ∈ k.prefixes)) := by
+  obtain ⟨k, b, ds, hl, _, _, hp⟩ := leaf_data_kept h hv
+  refine ⟨k, b, ds, hl, ?_⟩
+  intro x hx
+  rw [hp]
+  unfold keepIO
+  split
+  · rfl
+  · rename_i hne
+    rcases hx with hx | hx
+    · simp [List.mem_filter, hx.1, hx.2]
+    · exact absurd hx hne
+
+example : flattenF 6 exLib ["M"] = .ok exFlat ∧
+    (exFlat.vars.map fun v => (v.path, v.prefixes))[4]? = some (["l2", "k"], ["parameter"]) :=
+  ⟨exFlat_ok, by decide +kernel⟩
+
+/-! ## the equations -/
+
+/-- Renaming of one reference written in instance `P`: it becomes the flat variable `P ++ names`
+    with all subscripts collected iff that path is a flat variable; otherwise it stays as written. -/
+theorem reference_renaming (names : List Path) (P : Path) (parts : List (Name × List Nat)) :
+    (P ++ refNames parts ∈ names → rename names P (.ref parts) = .fref (P ++ refNames parts) (refSubs parts)) ∧
+    (P ++ refNames parts ∉ names → rename names P (.ref parts) = .uref parts) := by
+  constructor <;> intro h <;> simp [rename, h]
+
+example : rename [["a", "x"]] ["a"] (.ref [("x", [2])]) = .fref ["a", "x"] [2] ∧
+    rename [["a", "x"]] ["a"] (.ref [("time", [])]) = .uref [("time", [])] := by decide
+
+/-- The equation list of the flat model is: the instance equations, then one `v = 0` per flow
+    variable, then the binding equations; and the instance equations are exactly the equations
+    (own and inherited) of every class instantiated at some instance path `q`, renamed at `q`. -/
+theorem eqs_are_instance_eqs {fuel : Nat} {lib : Lib} {t : Path} {m : FlatModel} (h : flattenF fuel lib t = .ok m) :
+    ∃ r : List Var × List IEq, instTop fuel lib t = .ok r ∧
+      m.eqs = instEqs (m.vars.map (·.path)) r.2 ++ flowEqs r.1 ++ bindEqs (m.vars.map (·.path)) r.1 ∧
+      ∀ fe, fe ∈ instEqs (m.vars.map (·.path)) r.2 ↔
+        ∃ q c x, InstAt lib t q c ∧ MemberEq lib c x ∧
+          fe = (rename (m.vars.map (·.path)) q x.1, rename (m.vars.map (·.path)) q x.2) := by
+  obtain ⟨r, hr, rfl, htop⟩ := flattenF_ok h
+  have hnames : (assemble r).vars.map (·.path) = r.1.map (·.path) := by
+    simp [assemble, finVar, List.map_map, Function.comp_def]
+  refine ⟨r, ?_, ?_, ?_⟩
+  · exact htop
+  · rw [hnames]; rfl
+  · intro fe
+    rw [hnames]
+    constructor
+    · intro hfe
+      obtain ⟨e, he, rfl⟩ := List.mem_map.mp hfe
+      obtain ⟨q, c, hs, hi, hme⟩ := inst_eqs_sound hr he
+      exact ⟨q, c, _, hi, hme, by simp at hs; rw [hs]⟩
+    · rintro ⟨q, c, x, hi, hme, rfl⟩
+      have := inst_eqs_complete hi hme hr
+      exact List.mem_map.mpr ⟨_, this, by simp⟩
+
+example : flattenF 6 exLib ["M"] = .ok exFlat ∧
+    exFlat.eqs[2]? = some (.fref ["b"] [], .fref ["lb", "u"] []) ∧
+    exFlat.eqs[3]? = some (.fref ["y"] [], .bin "+" (.fref ["l2", "u"] [1]) (.fref ["b"] [])) :=
+  ⟨exFlat_ok, by decide +kernel, by decide +kernel⟩
+
+end PymocaVerif.Flatten
